@@ -290,6 +290,21 @@ func TestPropCompiles(t *testing.T) {
 	})
 }
 
+// TestPropDeep: every layout nested 0..24 levels deep in each kind of block must compile.
+func TestPropDeep(t *testing.T) {
+	shard, shards := ev.Shard()
+	n := 0
+	oneline.EachDeep(shard, shards, 24, func(name, src string) {
+		n++
+		recCompile.Eval(1)
+		if _, err := decideCompileSrc(src, nil); err != nil {
+			recCompile.Fail(t, SrcCase{Source: ev.QStr(src)}, "nested %s: %v", name, err)
+		}
+	})
+	recCompile.ClassN("layouts nested 0..24 levels deep (enumerated completely)", n)
+	recCompile.Enumerated(int64(n))
+}
+
 // TestPropLayouts: every member of the layout family (package oneline) that templ generate accepts
 // must yield Go that type-checks.
 func TestPropLayouts(t *testing.T) {
